@@ -8,14 +8,12 @@ package main
 import (
 	"fmt"
 	"os"
+	"runtime/pprof"
 	"strconv"
 
 	"verif/internal/core"
 
-	_ "verif/checks/c01"
-	_ "verif/checks/c03"
-	_ "verif/checks/c06"
-	_ "verif/checks/c09"
+	_ "verif/checks/c16"
 )
 
 func main() {
@@ -34,6 +32,14 @@ func main() {
 		}
 		sh, _ := strconv.Atoi(os.Args[4])
 		n, _ := strconv.Atoi(os.Args[5])
+		if pf := os.Getenv("VERIF_CPUPROFILE"); pf != "" && sh == 0 {
+			f, _ := os.Create(pf)
+			_ = pprof.StartCPUProfile(f)
+			rc := core.WorkerMain(os.Args[2], os.Args[3], sh, n)
+			pprof.StopCPUProfile()
+			f.Close()
+			os.Exit(rc)
+		}
 		os.Exit(core.WorkerMain(os.Args[2], os.Args[3], sh, n))
 	case "replay":
 		if len(os.Args) < 4 {
